@@ -762,6 +762,56 @@ theorem tail_step (K : St → Option β) (rest : List Char) (pos : Nat) (caps : 
     obtain ⟨b, r⟩ := p
     simp only [Directive.renderTail, tailCaps, List.length_append, List.append_assoc, List.cons_append, Nat.add_assoc]
 
+/-! ### one match -/
+
+theorem lit_step (K : St → Option β) (hK : ∀ st, K st ≠ none) (c : Char) (t : List Char) (pos : Nat) (caps : Caps) (hc : c ≠ '%') :
+    bt db litRe ⟨c :: t, pos, caps⟩ K =
+      K ⟨(spanP (fun x => x != '%') (c :: t)).2, pos + (spanP (fun x => x != '%') (c :: t)).1.length,
+        (1, pos, pos + (spanP (fun x => x != '%') (c :: t)).1.length) :: caps⟩ := by
+  have hc' : (c != '%') = true := by simpa using hc
+  simp only [litRe, notPctRe, bt_group, bt_seq, bt_cls_cons, cls_notPct, hc', if_true]
+  rw [star_cls db true _ (fun x => x != '%') (cls_notPct db) _ (by intro _ _ _ _ _ _; exact hK _)]
+  simp only [spanP, hc', if_true, ← spanP_eq_span, List.length_cons]
+  have : pos + 1 + (spanP (fun x => x != '%') t).1.length = pos + ((spanP (fun x => x != '%') t).1.length + 1) := by omega
+  rw [this]
+
+/-- the first match of the canonical tree at a position IS what the scanner reads there, group spans included -/
+theorem matchAt_canon (cs : List Char) (pos : Nat) :
+    matchAt db canonRe cs pos =
+      (scanItem cs).map (fun p => (⟨p.2, pos + p.1.render.length, itemCaps pos p.1⟩ : St)) := by
+  unfold matchAt
+  simp only [canonRe, bt_alt]
+  cases cs with
+  | nil =>
+    simp only [litRe, dirRe, notPctRe, lit, bt_group, bt_seq, bt_cls_nil, scanItem]
+    rfl
+  | cons c t =>
+    by_cases hc : c = '%'
+    · subst hc
+      have e1 : bt db litRe ⟨'%' :: t, pos, []⟩ some = none := by
+        simp [litRe, notPctRe, bt_group, bt_seq, bt_cls_cons]
+      rw [e1, none_or']
+      simp only [dirRe, lit, bt_group, bt_seq, bt_cls_cons, lit_37, beq_self_eq_true, if_true]
+      rw [tail_step]
+      simp only [scanItem, beq_self_eq_true, if_true]
+      cases scanDirective t with
+      | none => rfl
+      | some p =>
+        obtain ⟨d, r⟩ := p
+        simp only [Option.map_some, Item.render, Directive.render, itemCaps, dirCaps, List.length_cons, List.append_nil]
+        have : pos + 1 + d.renderTail.length = pos + (d.renderTail.length + 1) := by omega
+        rw [this]
+    · rw [lit_step db some (by simp) c t pos [] hc]
+      have hc' : (c == '%') = false := by simpa using hc
+      simp [scanItem, hc', Item.render, itemCaps]
+
 end steps
+
+/-- **the model's scanner IS the first match of the LIVE parse tree** (through `norm`): end position and group spans -/
+theorem matchAt_live (db : CharDB) (cs : List Char) (pos : Nat) :
+    matchAt db I18n.Generated.CFmtRe.directiveRe cs pos =
+      (scanItem cs).map (fun p => (⟨p.2, pos + p.1.render.length, itemCaps pos p.1⟩ : St)) := by
+  rw [← matchAt_norm, live_norm]
+  exact matchAt_canon db cs pos
 
 end I18n.CFmtRe
